@@ -152,6 +152,14 @@ def fam_wide(tier, seed, tag, nruns):
         def rd():
             for c in sorted(touched):
                 steps.append({"op": "read", "gb": c * bpc, "n": bpc})
+            # multi-cluster reads that start inside one L1 entry's range (often one without an L2 table)
+            # and end inside the next one's
+            for i1 in pop[1:]:
+                if rng.random() < 0.5:
+                    k = rng.choice([1, 2, l2n // 2, l2n - 1])
+                    lo = max(0, i1 * l2n - k)
+                    n = min(geo["vclusters"] - lo, k + rng.choice([1, 2, 3]))
+                    steps.append({"op": "read", "gb": lo * bpc + rng.randrange(bpc), "n": (n - 1) * bpc + 1})
 
         for k in range(rng.randrange(10, 22)):
             i1 = rng.choice(pop)
@@ -631,7 +639,9 @@ def check_C01(chk):
     n = 48 if chk.tier == "quick" else 600
     scens = fam_seq(chk.tier, chk.seed, "c01", n, 24 if chk.tier == "quick" else 40)
     scens += fam_backing(chk.tier, chk.seed, "c01b", n // 2, 16)
-    scens += fam_wide(chk.tier, chk.seed, "c01w", 6 if chk.tier == "quick" else 60)
+    scens += fam_wide(chk.tier, chk.seed, "c01w", 8 if chk.tier == "quick" else 80)
+    scens += fam_growth(chk.tier, chk.seed, "c01g", 4 if chk.tier == "quick" else 40)
+    scens += fam_allocstress(chk.tier, chk.seed, "c01a", 6 if chk.tier == "quick" else 60)
     scens += fam_regress()
     res, st = Q.run_batch(scens, chk.wd, known=chk.known_tags(), par=12)
     chk.consume(res, st, props=("C01",))
@@ -681,6 +691,8 @@ def check_C16(chk):
     n = 36 if chk.tier == "quick" else 300
     scens = fam_seq(chk.tier, chk.seed, "c16", n, 20, sweep_every=5)
     scens += fam_backing(chk.tier, chk.seed, "c16b", n // 2, 16)
+    scens += fam_growth(chk.tier, chk.seed, "c16g", 4 if chk.tier == "quick" else 24)
+    scens += fam_wide(chk.tier, chk.seed, "c16w", 4 if chk.tier == "quick" else 24)
     scens += fam_regress()
     res, st = Q.run_batch(scens, chk.wd, known=chk.known_tags(), par=12)
     chk.consume(res, st, props=("C16",))
@@ -1348,6 +1360,13 @@ def check_C09(chk):
                     continue
                 geo = dict(cb=cb, ro=ro, bsb=9, vclusters=big, params={})
                 scens.append(S.mk(f"c09F-cb{cb}-ro{ro}-n{big}", geo, [S.image_plain(geo, "format")], [{"op": "info"}], format_only=True))
+    # (c) sizes at which the fresh image's metadata fills a whole number of refcount blocks (spec/Cli.tla
+    # FormatBoundaryCases): Qcow2Header::format_qcow2 through the library
+    bcases, _, _ = Q.tlc_enumerate("Cli.tla", env={"MAXMB": "260" if quick else "700", "ALLSIZES": "0"})
+    for c in bcases:
+        if c.get("t") == "format" and c.get("boundary") and (not quick or c["mb"] % 2 == 1):
+            geo = dict(cb=c["cb"], ro=c["ro"], bsb=9, vclusters=(c["mb"] << 20) >> c["cb"], params={})
+            scens.append(S.mk(f"c09B-cb{c['cb']}-ro{c['ro']}-mb{c['mb']}", geo, [S.image_plain(geo, "format")], [{"op": "info"}], format_only=True))
     res, st = Q.run_batch(scens, chk.wd, known=chk.known_tags(), par=14)
     chk.consume(res, st, props=("C09", "C01", "C02", "C03", "C07", "OPEN", "PANIC"))
     for name in res:
@@ -1383,7 +1402,7 @@ def check_C14(chk):
                 continue            # pairs are spread over the geometries
             images = [S.image_shaped(rng, geo, 1, frac=0.5, kinds=("data", "data", "zero", "comp"))]
             v = geo["vclusters"] * bpc
-            steps = [{"op": "info"}, {"op": "mapall"}, {"op": "sweep"},
+            steps = [{"op": "info"}, {"op": "mapall"}, {"op": "check"}, {"op": "sweep"},
                      {"op": "write", "gb": rng.randrange(v), "n": 1}, {"op": "write", "gb": 0, "n": min(v, 2 * bpc + 1)},
                      {"op": "discard", "gb": 0, "n": v}, {"op": "write", "gb": rng.randrange(v), "n": 1},
                      {"op": "flush"}, {"op": "check"}, {"op": "sweep"}, {"op": "reopen"}, {"op": "sweep"}]
@@ -1551,7 +1570,7 @@ def check_C20(chk):
     import subprocess
     quick = chk.tier == "quick"
     cli = Q.build_cli()
-    cases, gen, dist = Q.tlc_enumerate("Cli.tla")
+    cases, gen, dist = Q.tlc_enumerate("Cli.tla", env={"MAXMB": "260", "ALLSIZES": "0"} if quick else {"MAXMB": "320", "ALLSIZES": "1"})
     rng = random.Random(chk.seed * 31 + 20)
     tmp = os.path.join(chk.wd, "tmp")
     os.makedirs(tmp, exist_ok=True)
